@@ -14,7 +14,8 @@ Routes == {"ctor_str", "ctor_path", "ctor_file", "static_parse", "instance_parse
 AcceptsOptions(route) == route \in {"ctor_str", "ctor_path", "ctor_file", "static_parse", "instance_parse"}
 
 \* sources the constructor must refuse
-BadSources == {"bytes", "int", "list", "StringIO", "float", "tuple"}
+BadSources == {"bytes", "int", "list", "StringIO", "float", "tuple",
+               "int0", "bytes_empty", "list_empty", "tuple_empty", "float0", "false", "dict_empty"}     \* falsy ones too
 
 \* opts = [allow |-> BOOLEAN, custom |-> BOOLEAN]  (custom renderer classes passed or not)
 EffectiveAllow(route, opts) == AcceptsOptions(route) /\ opts.allow
